@@ -140,7 +140,7 @@ def run(chk: harness.Check):
         "receive matching severities; (D4) in RecipeCollector::parse_events the Event::Error arm calls SourceReport::retain with a Stage::Parse predicate and "
         "returns PassResult::new(None, ..), every other PassResult::new carries Some(content); (D5) PassResult::is_valid is has_output() ∧ ¬has_errors(); "
         "(D6) every Number::Fraction built in the parser takes its denominator from frac() or under the `== 0` rejection; (D7) the out-of-range diagnostic of an intermediate reference is guarded by the "
-        "n-th element of the is_step-filtered enumeration of the current section / a comparison with content.sections.len() (shared with C06.D6); (D8) Text::is_text_empty, on which the empty-name/unit/key/value checks hang, examines every fragment; (D9) the primary label stays labels[0]: constructors start the list with it and it is only ever pushed to. Weak: which condition triggers a "
+        "n-th element of the is_step-filtered enumeration of the current section / a comparison with content.sections.len() (shared with C06.D6); (D8) Text::is_text_empty, on which the empty-name/unit/key/value checks hang, examines every fragment; (D9) the primary label stays labels[0]: constructors start the list with it and it is only ever pushed to; (D10) the sets of modifier flags tested by the forbidden-modifier checks are the reviewed sets. Weak: which condition triggers a "
         "diagnostic and where its labels point are not decided.")
     chk.trusted = ["rustc MIR", "tables/diagnostics.toml (reviewed catalogue; message texts are listed for the reader and never compared)"]
     cons = constructions(F)
@@ -181,6 +181,44 @@ def run(chk: harness.Check):
     c06.d6_intermediate(chk, F, rule="C07.D7-intermediate-range")
     d8_empty_predicate(chk, F)
     d9_primary_label(chk, F)
+    d10_modifier_sets(chk, F)
+
+
+# reviewed sets of modifier flags that a check tests for (function suffix, method) -> set; from the documented rules:
+# an intermediate-preparation reference may not be a recipe reference, hidden or new; `+` and `&` exclude each other
+MODIFIER_SETS = {
+    ("RecipeCollector::ingredient", "intersects"): {"RECIPE", "HIDDEN", "NEW"},
+    ("RecipeCollector::resolve_reference", "contains"): {"NEW", "REF"},
+}
+
+
+def modifier_set_calls(F, fn_suffix, method):
+    out = []
+    for g in F.find(fn_suffix):
+        for h in F.region_funcs(g.key):
+            for b, t in h.calls():
+                ck = callee_key(t) or ""
+                if "Modifiers" in ck and ck.rsplit("::", 1)[-1] == method and len(t.get("args", [])) == 2:
+                    e = resolve(h, t["args"][1])
+                    cs = {l.split("::")[-1] for l in leaves(e) if l.startswith("const:") and "Modifiers::" in l}
+                    if len(cs) >= 2:
+                        out.append((h, b, cs))
+    return out
+
+
+def d10_modifier_sets(chk, F):
+    """'forbidden modifier' diagnostics test a SET of flags; the set is part of the catalogue: the union of Modifiers constants that
+    reaches each reviewed intersects()/contains() test must be exactly the reviewed set (a flag dropped from it is a check that
+    silently stopped firing for that modifier)."""
+    for (fn, method), want in sorted(MODIFIER_SETS.items()):
+        sites = modifier_set_calls(F, fn, method)
+        chk.expect(bool(sites), "C07.D10-modifier-sets", f"{fn}|{method}#present", "",
+                   f"anchor-missing: no {method}() test on a union of Modifiers constants left in {fn}", sample=f"{fn}: {method}({sorted(want)})")
+        for h, b, cs in sites:
+            chk.expect(cs == want, "C07.D10-modifier-sets", f"{fn}|{method}", h.where(b),
+                       f"{fn.split('::')[-1]} tests the modifiers {sorted(cs)} where the reviewed set is {sorted(want)}: "
+                       + (f"{sorted(want - cs)} no longer produce(s) the diagnostic" if want - cs else f"{sorted(cs - want)} added"),
+                       sample=f"{h.where(b)}: {method}({' | '.join(sorted(cs))})")
 
 
 def d9_primary_label(chk, F):
